@@ -37,6 +37,7 @@ func isRangeIndex(v ssa.Value) bool {
 func checkC16(c *Ctx) {
 	c.explainf("C16 decides: the three places that marshal arguments for a compiled function (run-time preparation, compile-time generation, apply/map) decide laziness with the same predicate IsLazyCallArg(index), build the wrapper only on its true branch (source wrapper on the source routes, value wrapper on apply/map) and evaluate/push every other position exactly once; Go builtins never receive a wrapper; the laziness flags are written only where formals are declared, from the # sigil; positions in a variadic tail are never lazy; forcing returns the memo when forced and otherwise stores value and forced flag on every success path; the wrapper captures scope stack and current function and forcing installs exactly those inside a capture/restore bracket; substitute cannot reach force. It does not decide effect counts or order for concrete programs.")
 	c.checkArgsReadAtCall("C16-DOT")
+	c.checkNamedLaziness("C16-NAMED")
 	isLazy := c.mustFn("C16-SITES", "SexpFunction.IsLazyCallArg")
 	newSrc := c.mustFn("C16-SITES", "NewSourceLazyArg")
 	newVal := c.mustFn("C16-SITES", "NewValueLazyArg")
@@ -80,6 +81,12 @@ func checkC16(c *Ctx) {
 		}
 		call := calls[0].(*ssa.Call)
 		idxOK := len(call.Call.Args) == 2 && isRangeIndex(call.Call.Args[1])
+		if !idxOK && len(call.Call.Args) == 2 {
+			// the position mapped to the parameter it is bound to (named arguments): f(..., i)
+			if m, ok := call.Call.Args[1].(*ssa.Call); ok && len(m.Call.Args) > 0 && isRangeIndex(m.Call.Args[len(m.Call.Args)-1]) {
+				idxOK = true
+			}
+		}
 		c.check(idxOK, "C16-SITES", s.fn, "predicate on the argument position", call.Pos(), "IsLazyCallArg is asked about the position of the argument being marshalled",
 			"IsLazyCallArg is not called with the loop's argument index")
 		// the branch
@@ -557,4 +564,50 @@ func (c *Ctx) checkArgsReadAtCall(rule string) {
 	})
 	c.check(nStore > 0 && okB, rule, "SexpLazyArg.Force", "forced value read in the scopes of the call", force.Pos(),
 		"the value memoised by Force has passed through RValue", "Force memoises what the argument expression evaluated to as it is: for a dot-symbol argument that is the symbol itself, which is then dereferenced wherever it is consumed, in the receiver's scopes")
+}
+
+// checkNamedLaziness: C16-NAMED. A typed func may be called with named
+// arguments (name: value ...); which parameter a value is bound to is then
+// decided by its label, after the arguments have been prepared. The run-time
+// preparation decides laziness while it walks the raw argument list, so the
+// index it asks IsLazyCallArg about must be the parameter's index, obtained
+// from a routine that looks at the labels (colonTail) and the declared
+// parameter names (inputTypes), not the position in the call.
+func (c *Ctx) checkNamedLaziness(rule string) {
+	prep := c.mustFn(rule, "Zlisp.PrepareCallExprArgs")
+	isLazy := c.mustFn(rule, "SexpFunction.IsLazyCallArg")
+	colon := c.mustField(rule, "SexpSymbol", "colonTail")
+	inTypes := c.mustField(rule, "SexpFunction", "inputTypes")
+	if prep == nil || isLazy == nil || colon == nil || inTypes == nil {
+		return
+	}
+	sites := callsOf(prep, isLazy)
+	if len(sites) == 0 {
+		c.undecided(rule, "Zlisp.PrepareCallExprArgs", "laziness test", prep.Pos(), "no call of IsLazyCallArg in the run-time argument preparation")
+		return
+	}
+	for _, site := range sites {
+		args := site.Common().Args
+		idx := args[len(args)-1]
+		okIdx := false
+		if call, isCall := idx.(*ssa.Call); isCall {
+			if g := call.Call.StaticCallee(); g != nil {
+				readsColon, readsTypes := false, false
+				eachInstr(g, func(b *ssa.BasicBlock, i int, in ssa.Instruction) {
+					if fa, ok := in.(*ssa.FieldAddr); ok {
+						if faField(fa) == colon {
+							readsColon = true
+						}
+						if faField(fa) == inTypes {
+							readsTypes = true
+						}
+					}
+				})
+				okIdx = readsColon && readsTypes
+			}
+		}
+		c.check(okIdx, rule, "Zlisp.PrepareCallExprArgs", "laziness decided for the parameter a value is bound to", site.Pos(),
+			"the index asked about comes from a routine that pairs labels with declared parameter names",
+			"laziness is decided by the position of the expression in the call: in a call with named arguments (f #a: (bump) b: 5) position 1 is the value of the first label, not parameter 1, so the value of a lazy parameter is evaluated before the call and the value of a strict one is wrapped unevaluated (and then fails the type check)")
+	}
 }
